@@ -8,9 +8,30 @@ def B(qc, tc, **kw):
 BUDGET = {
     "C04": B(600, 12000),
     "C09": B(600, 12000),
+    "C01": B(1500, 20000),
+    "C02": B(1500, 20000, foreign=["ASSERT:m_activeOp"]),
+    "C03": B(1500, 20000, foreign=["ASSERT:m_activeOp"]),
+    "C12": B(1500, 20000, foreign=["ASSERT:m_activeOp"]),
 }
 
+SCHED = ("Each case is a small concurrent program plus a schedule: the executor interposes the pthread API, runs exactly one thread at a time "
+         "and picks the next thread at every synchronisation operation / harness yield from the generated choice vector "
+         "(modes: empty, sparse with p in {1/8,1/4,1/2}, uniform). Distinct = distinct case text (program + schedule). ")
+
 RULE = {
+    "C01": SCHED + "Programs: 2-5 (thorough 8) threads issuing read/write lock-unlock pairs (raw calls or ReadLock/WriteLock guards, 0-2 yields inside the "
+           "section); shapes free mix / batch (writer holding across yields, >=2 readers, a further writer) / reader-heavy. Oracle: holder counters checked "
+           "on entry and after every yield inside the section, plus tulz's own assert(m_activeOp == opType). Non-trivial = at least one thread parked "
+           "inside lock*() and a context switch happened while some thread was inside a critical section.",
+    "C02": SCHED + "Programs as C01. Oracle: no deadlock (no enabled thread while threads are unfinished) in any explored schedule, and after all workers are "
+           "joined lockWrite/unlockWrite/lockRead x2/unlockRead x2 on the main thread never parks. Non-trivial = an admitted (signalled) waiter was slow to wake: "
+           "control went to another thread between its wake-up and its return from lock*().",
+    "C03": SCHED + "Programs as C01 plus an ordering shape (a holder, then requests issued one by one, each only after the previous requester is parked). "
+           "Oracle over the event log: for requests X, Y with PARK(X) < CALL(Y), not both reads: RET(X) < RET(Y). Non-trivial = at least one such ordered pair "
+           "and two threads parked at once.",
+    "C12": SCHED + "Programs: writer-free (2-6 reader threads, incl. nested reads), free mix with few writers, rendezvous shape (a writer holds until all k>=2 readers "
+           "are parked, then unlocks; the readers meet at a barrier inside the read section). Oracle: a read request during which no write request was outstanding "
+           "never parks; the rendezvous never deadlocks. Non-trivial = >=2 reader threads inside the lock simultaneously (rendezvous: barrier completed).",
     "C04": "rapidcheck generates operation histories (<=120 ops quick, <=400 thorough) over a pool of 4 RingBuffers of one element type "
            "(int | POD struct | lifetime-tracked class), both overwrite modes; operands are decoded interpretively so every op is valid. "
            "Oracle: std::deque + capacity model compared through the public API after every op. Non-trivial = a resize, copy or move executed "
@@ -22,7 +43,11 @@ RULE = {
            "with head != 0, or a copy assignment onto a non-empty buffer, or destruction of a wrapped buffer. Distinct = distinct case text.",
 }
 
+VS = ["controlled scheduler: pre-emption only at synchronisation operations, thread lifecycle events and harness yields; sequentially consistent memory",
+      "glibc pthread primitives are modelled by the scheduler (mutex owner table, condvar waiter lists), not executed"]
+
 ASSUMPTIONS = {
+    "C01": VS, "C02": VS + ["critical sections only yield, they never wait for anything else"], "C03": VS, "C12": VS,
     "C04": ["std::deque is a correct reference model", "element types are bitwise relocatable (as the quantifier requires)"],
     "C09": ["ASan/LSan report every out-of-bounds access / leaked block they observe", "moved-from shells left by pop_* are tolerated, as pinned by RingBufferEfficiencyTest"],
 }
